@@ -87,8 +87,43 @@ def eval_pyramid(fam, cyc, apex):
                                    [('height', r.height, h), ('volume', r.volume, vol), ('volume()', lambda: volume(r), vol)])
 
 
+MOVES = ((1, 2, -1), (F(-1, 2), F(1, 4), 0))
+
+
+def eval_moved(fam, s):
+    """measure, move in place, measure the receiver and the returned object again."""
+    from Geometry3D import Vector
+    kind, pts, faces = s[1], s[2], s[3]
+    sc = lambda: core.enc(s)
+    viols = []
+    if kind == 'polygon':
+        e = X.Pg(pts)
+        r = lib.call(lambda: ConvexPolygon(tuple(lib.P(p) for p in pts)))
+        what = lambda o: [('length', o.length, X.f_length(e)), ('area', o.area, X.f_area(e))]
+    else:
+        verts = tuple(dict.fromkeys(v for cyc in faces for v in cyc))
+        e = X.Ph(verts)
+        r = lib.call(build_polyhedron, faces, tuple(range(len(faces))), tuple(i % 2 for i in range(len(faces))))
+        what = lambda o: [('length', o.length, X.f_length(e)), ('area', o.area, X.f_area(e)), ('volume', o.volume, X.f_volume(e)),
+                          ('volume()', lambda: volume(o), X.f_volume(e))]
+    cell = 'moved-' + kind
+    if isinstance(r, lib.Raised):
+        return cell, [Viol('C06|moved|construct|%s|raises:%s' % (kind, r.cls), sc(), 'object', repr(r), '')]
+    viols += cmp_measures('C06', 'moved', cell + '|before', sc, r, e, what(r))
+    for i, v in enumerate(MOVES):
+        ret = lib.call(r.move, lib.V(v))
+        if isinstance(ret, lib.Raised):
+            viols.append(Viol('C06|moved|move|%s|raises:%s' % (kind, ret.cls), sc(), 'moved object', repr(ret), ''))
+            break
+        viols += cmp_measures('C06', 'moved', cell + '|receiver-after-move', sc, r, e, what(r))
+        viols += cmp_measures('C06', 'moved', cell + '|returned-by-move', sc, ret, e, what(ret))
+    return cell, viols
+
+
 def eval_scene(fam, s):
     k = s[0]
+    if k == 'moved':
+        return eval_moved(fam, s)
     if k == 'polygon':
         return eval_polygon(fam, s[1])
     if k == 'polyhedron':
@@ -162,6 +197,11 @@ class Misc(Family):
                 for ap in apexes:
                     if X.dot(n, X.sub(ap, cyc[0])) != 0:
                         sc.append(('pyramid', tuple(pose.point(v) for v in cyc), pose.point(ap)))
+        for name in A.POLYGONS:
+            sc.append(('moved', 'polygon', tuple(pose.point(p) for p in A.POLYGONS[name]), ()))
+        for name in (('tetrahedron', 'box', 'pyramid', 'cut-cube') if tier == 'quick' else list(A.POLYHEDRA)):
+            K = pose(A.polyhedron(name))
+            sc.append(('moved', 'polyhedron', (), tuple(tuple(c) for c in perm.body_faces(K))))
         self.sc = sc
         self.total = len(sc)
         self._shards = [(i, min(i + 300, self.total)) for i in range(0, self.total, 300)]
